@@ -188,11 +188,16 @@ def summary(chk, crate, f):
             good = from_si and clo_ok
             if not clo_ok:
                 why += " (closure is not a pure conversion of its argument)"
-        elif val[0] == "path" and not val[2] and val[1].startswith("_") and val[1][1:].isdigit():
+        elif (val[0] == "path" and not val[2] and val[1].startswith("_") and val[1][1:].isdigit()) or \
+                (val[0] == "agg" and val[1] == "one-of"):
             # the same thing spelled as a match: `match si.f { Some(v) => Some(conv(v)), None => None }` - two
             # definitions, None and Some(conversion of the payload of <status information>.name)
-            defs = f.tr.defs.get(int(val[1][1:]), [])
-            vals = [f.ex.rvalue(d_[3]["rv"]) for d_ in defs if d_[2] == "assign"]
+            if val[0] == "agg":
+                vals = list(val[2])             # (already listed as the alternatives the temporary carries)
+                defs = vals
+            else:
+                defs = f.tr.defs.get(int(val[1][1:]), [])
+                vals = [f.ex.rvalue(d_[3]["rv"]) for d_ in defs if d_[2] == "assign"]
             nones = [v_ for v_ in vals if v_[0] == "agg" and v_[1].endswith("Option::None")]
             somes = [v_ for v_ in vals if v_[0] == "agg" and v_[1].endswith("Option::Some") and len(v_[2]) == 1]
             if len(vals) == len(defs) == 2 and len(nones) == 1 and len(somes) == 1:
